@@ -289,13 +289,26 @@ def run_contour(case):
             fit.add_error("y", q["sig"][0])
             with guard("do_fit"):
                 fit.do_fit()
-            cpf = kafe2.ContoursProfiler(fit, contour_sigma_values=(s,), contour_points=12)
+            two = case.get("model", "linear_model") != "cubic_model"  # two levels at once, with a dictionary of method options that the caller keeps
+            s2 = s + 0.75
+            mk = {"numpoints": 10} if two else None
+            cpf = kafe2.ContoursProfiler(fit, contour_sigma_values=(s, s2) if two else (s,), contour_points=12, contour_method_kwargs=mk)
             with guard("get_contours"):
-                cpf.get_contours(*fit.parameter_names[:2])
+                conts = cpf.get_contours(*fit.parameter_names[:2])
             lv = cpf._contour_kwargs["confidence_levels"][0]
             want = -math.expm1(-0.5 * s * s)
             if lv.ndim != 2 or not _cl_close(float(lv.cl), want):
                 raise Violation("profiler-level", f"ContoursProfiler level for {s} sigma: ndim={lv.ndim} cl={lv.cl!r}, expected 2-d {want!r}")
+            if two:
+                if mk != {"numpoints": 10}:
+                    raise Violation("profiler-method-kwargs-modified", f"the caller's contour_method_kwargs became {mk!r}")
+                want_all = [-math.expm1(-0.5 * s * s), -math.expm1(-0.5 * s2 * s2)]
+                if len(seen) != 2 or any(c is None or not _cl_close(float(c), w) for c, w in zip(seen, want_all)):
+                    raise Violation("mncontour-cl-per-level", f"contours at {s} and {s2} sigma: cl values passed to mncontour {seen!r}, two-dimensional levels {want_all!r}")
+                for (lvl, _c), w in zip(conts, want_all):
+                    if not _cl_close(float(lvl.cl), w):
+                        raise Violation("profiler-level", f"returned level object cl={lvl.cl!r}, expected {w!r}")
+                seen[:] = seen[:1]
     finally:
         iminuit.Minuit.mncontour = orig
     want = -math.expm1(-0.5 * s * s)
